@@ -84,23 +84,41 @@ impl Write for Scripted {
 }
 
 /// formatted writes whose format string has no run-time arguments (`Arguments::as_str()` is `Some`)
-pub const LITERALS: [&str; 6] = [
+pub const LITERALS: [&str; 9] = [
     "warning: unused variable\n",
     "\x1b[1;33mwarning\x1b[0m: unused \x1b[4mvariable\x1b[0m\n",
     "\x1b[32mok\x1b[m",
     "a\x1b]0;t\x07b\u{e9}c\x1b[",
     "x",
     "\x1b[31m\u{6f22}\u{5b57}\x1b[0m \u{1f600} done\r\n",
+    // literals that only make sense as the continuation of an earlier call
+    "m",
+    ";31mb",
+    "window title",
 ];
 
-fn write_literal(w: &mut dyn Write, idx: usize) -> io::Result<()> {
+/// (written first with write_all, literal index, written afterwards with write_all): the literal completes or sits inside
+/// a sequence that an earlier call began
+pub const LITERAL_CONTINUATIONS: [(&str, usize, &str); 6] = [
+    ("bold\x1b[1", 6, "hello\n"),
+    ("a\x1b[1", 7, "\x1b[0mc"),
+    ("\x1b]0;", 8, "\x07shown"),
+    ("x\x1b[38;5;1", 6, "y"),
+    ("\x1bP1$r", 8, "\x1b\\z"),
+    ("plain ", 8, " text\n"),
+];
+
+pub fn write_literal(w: &mut dyn Write, idx: usize) -> io::Result<()> {
     match idx {
         0 => write!(w, "warning: unused variable\n"),
         1 => write!(w, "\x1b[1;33mwarning\x1b[0m: unused \x1b[4mvariable\x1b[0m\n"),
         2 => write!(w, "\x1b[32mok\x1b[m"),
         3 => write!(w, "a\x1b]0;t\x07b\u{e9}c\x1b["),
         4 => write!(w, "x"),
-        _ => write!(w, "\x1b[31m\u{6f22}\u{5b57}\x1b[0m \u{1f600} done\r\n"),
+        5 => write!(w, "\x1b[31m\u{6f22}\u{5b57}\x1b[0m \u{1f600} done\r\n"),
+        6 => write!(w, "m"),
+        7 => write!(w, ";31mb"),
+        _ => write!(w, "window title"),
     }
 }
 
@@ -198,8 +216,9 @@ pub fn run_history(run: &Run<'_>, st: Option<&mut Stats>) -> Result<(), (String,
                         stream.w().write(rest)
                     } else {
                         // empty slices around and inside: the first non-empty one is what may be written
-                        let mid = rest.len() / 2;
-                        let bufs = [IoSlice::new(&[]), IoSlice::new(&rest[..mid]), IoSlice::new(&[]), IoSlice::new(&rest[mid..])];
+                        // (three non-empty slices when the data is long enough)
+                        let (m1, m2) = (rest.len() / 3, 2 * rest.len() / 3);
+                        let bufs = [IoSlice::new(&[]), IoSlice::new(&rest[..m1]), IoSlice::new(&rest[m1..m2]), IoSlice::new(&[]), IoSlice::new(&rest[m2..])];
                         stream.w().write_vectored(&bufs)
                     };
                     let sh = shared.borrow();
@@ -269,9 +288,10 @@ pub fn run_history(run: &Run<'_>, st: Option<&mut Stats>) -> Result<(), (String,
                 let r = if run.api == Api::WriteAll {
                     stream.w().write_all(chunk)
                 } else if run.api == Api::WriteFmtLiteral {
+                    // chunks that are not one of the literals travel through write_all
                     match LITERALS.iter().position(|l| l.as_bytes() == chunk) {
                         Some(k) => write_literal(stream.w(), k),
-                        None => return Err(("c06:harness".into(), "literal API used with a non-literal input".into())),
+                        None => stream.w().write_all(chunk),
                     }
                 } else {
                     match std::str::from_utf8(chunk) {
@@ -534,6 +554,21 @@ pub fn run(cfg: &Cfg) -> Stats {
                     let run = Run { input: lit, script: &script, api: Api::WriteFmtLiteral, wrap, cuts: &[], probe: PROBES[idx as usize % PROBES.len()], raw_write_all: raw };
                     eval(&run, &mut st, true);
                 }
+            }
+            idx += n;
+        }
+        // a literal formatted write that continues what an earlier call began: every case x every script
+        let total_c = nscripts * LITERAL_CONTINUATIONS.len() as u64;
+        let mut idx = shard;
+        while idx < total_c {
+            let (pre, k, post) = LITERAL_CONTINUATIONS[(idx % LITERAL_CONTINUATIONS.len() as u64) as usize];
+            gen::enum_decode(idx / LITERAL_CONTINUATIONS.len() as u64, STEPS.len() as u64, &mut digits);
+            let script: Vec<Step> = digits.iter().map(|d| STEPS[*d]).collect();
+            let input = format!("{pre}{}{post}", LITERALS[k]);
+            let cuts = [pre.len(), pre.len() + LITERALS[k].len()];
+            for wrap in [Wrap::Strip, Wrap::AutoNever] {
+                let run = Run { input: input.as_bytes(), script: &script, api: Api::WriteFmtLiteral, wrap, cuts: &cuts, probe: PROBES[idx as usize % PROBES.len()], raw_write_all: false };
+                eval(&run, &mut st, true);
             }
             idx += n;
         }
